@@ -8,7 +8,7 @@ from pool import run_chunks
 
 TIERS = {
     "quick": dict(MaxPlace=2, MaxChan=2, MaxSamp=2, BinChoices={1, 2}, NPts=1, Settings={1}, Overrides={0}, EmitMod=24, Pairs=False),
-    "thorough": dict(MaxPlace=2, MaxChan=2, MaxSamp=2, BinChoices={1, 2}, NPts=1, Settings={1}, Overrides={0}, EmitMod=2, Pairs=True),
+    "thorough": dict(MaxPlace=2, MaxChan=2, MaxSamp=2, BinChoices={1, 2}, NPts=1, Settings={1}, Overrides={0}, EmitMod=8, Pairs=True),
 }
 
 
